@@ -886,7 +886,7 @@ func main() {
 			n := root.maxSrc() + 2 // plus the callback source
 			sc := r.Conc(fmt.Sprintf("%s/%s", root, exec), -1, scenario(root, n, exec, maxDev))
 			sc.SplitDepth = 4
-			sc.Shard = n >= 4
+			sc.Shard = n >= 4 || strings.HasPrefix(root.String(), "Chain(3)") // the last-link kind alone is 1.2 million runs
 			sc.ReadsCommute = true
 			sc.SilentLoads = true
 			count++
